@@ -254,3 +254,46 @@ Theorem C16_b64_tf_round :
      Rabs (nth k ys 0 - (dot nm U - dot dn Y)) <= tf_res_bound eps64 eta64 nm dn U Y).
 Proof. exact (conj tf_iter_round_binary64 tf_run_round_binary64). Qed.
 Print Assumptions C16_b64_tf_round.
+
+(* ------------------------------------------------------------------------------------------------------------------
+   THE PRIMITIVE-FLOAT RUN IS THE ROUNDED-REAL RUN (C16/LpfFloat.v, Common/F64Refine.v).  The theorems above are about
+   lpf_iter (Rnd_ops rnd64); the bit-exact correspondence with the C is about lpf_iter F64_ops (Coq's primitive binary64
+   floats).  These theorems compose the per-operation link (Flocq's B*_correct through the standard library's
+   FloatAxioms) along the program and along a run of ANY length: f2r is the real value of a float, ffinite says
+   "neither infinite nor NaN", frel x r := ffinite x = true /\ f2r x = r.  Overflow is handled, not assumed away: the
+   one-step theorem needs only |state|, |sample| <= 2^1022, and the run theorems carry the guard on the real-number
+   side, where C16_round_lpf_hull_iff_corners discharges it (C16_f64_lpf_run_hull). *)
+From Flocq Require Import Core.
+From LibaV Require Import Common.FloatOps Common.F64Refine C16.LpfFloat.
+Theorem C16_f64_lpf_step_is_rounded_step : forall alpha o x : Floats.PrimFloat.float,
+  ffinite alpha = true -> ffinite o = true -> ffinite x = true ->
+  0 <= f2r alpha <= 1 -> Rabs (f2r o) <= bpow radix2 1022 -> Rabs (f2r x) <= bpow radix2 1022 ->
+  ffinite (lpf_iter F64_ops alpha o x) = true /\
+  f2r (lpf_iter F64_ops alpha o x) = lpf_iter (Rnd_ops rnd64) (f2r alpha) (f2r o) (f2r x).
+Proof. exact f64_lpf_iter_refines. Qed.
+Print Assumptions C16_f64_lpf_step_is_rounded_step.
+
+Theorem C16_f64_lpf_run_is_rounded_run : forall alpha : Floats.PrimFloat.float,
+  ffinite alpha = true -> 0 <= f2r alpha <= 1 ->
+  forall (xs : list Floats.PrimFloat.float) (o : Floats.PrimFloat.float),
+  (ffinite o = true /\ Rabs (f2r o) <= bpow radix2 1022) ->
+  List.Forall (fun x => ffinite x = true /\ Rabs (f2r x) <= bpow radix2 1022) xs ->
+  List.Forall (fun y => Rabs y <= bpow radix2 1022) (lpf_run (Rnd_ops rnd64) (f2r alpha) (f2r o) (map f2r xs)) ->
+  map f2r (lpf_run F64_ops alpha o xs) = lpf_run (Rnd_ops rnd64) (f2r alpha) (f2r o) (map f2r xs) /\
+  List.Forall (fun y => ffinite y = true) (lpf_run F64_ops alpha o xs).
+Proof. exact f64_lpf_run_values. Qed.
+Print Assumptions C16_f64_lpf_run_is_rounded_run.
+
+(* the hull statement on the float side: whenever the two corners are stable in binary64 (the exact criterion of
+   C16_round_lpf_hull_iff_corners), EVERY float run on finite data within [-M, M], M <= 2^1022, of any length, stays
+   finite and within [-M, M] - no overflow, no NaN *)
+Theorem C16_f64_lpf_run_hull : forall (alpha : Floats.PrimFloat.float) (M : R),
+  ffinite alpha = true -> 0 <= f2r alpha <= 1 -> 0 <= M <= bpow radix2 1022 ->
+  - M <= lpf_iter (Rnd_ops rnd64) (f2r alpha) (- M) (- M) ->
+  lpf_iter (Rnd_ops rnd64) (f2r alpha) M M <= M ->
+  forall (xs : list Floats.PrimFloat.float) (o : Floats.PrimFloat.float),
+  ffinite o = true -> - M <= f2r o <= M ->
+  List.Forall (fun x => ffinite x = true /\ - M <= f2r x <= M) xs ->
+  List.Forall (fun y => ffinite y = true /\ - M <= f2r y <= M) (lpf_run F64_ops alpha o xs).
+Proof. exact f64_lpf_run_hull. Qed.
+Print Assumptions C16_f64_lpf_run_hull.
